@@ -68,6 +68,35 @@ def gen_groups(run):
     return groups
 
 
+METHODS = ["GET", "HEAD", "POST", "PUT", "PATCH", "DELETE", "OPTIONS"]
+
+
+def gen_profiles(run):
+    """the property quantifies over outcome scripts and n only: the method of the request, its headers, body and context,
+    the latency of the wrapped transport and other retry instances in the chain must not matter.  Every profile is run on
+    scripts that need a retry (fail, then succeed; exhaust), so a policy that keys on any of them shows as a wrong number
+    of calls / a missing wait.  lat<us> = latency of every call, as a fraction/multiple of d (d = 2000 us here)"""
+    profs = []
+    for m in METHODS:
+        profs += [m, m + "+idem", m + "+ctxv"]
+    profs += ["POST+body", "PUT+body+idem", "PATCH+body+ctxv"]
+    profs += ["lat500", "lat1500", "lat2500", "POST+lat1500", "lat1500+ctxv"]
+    profs += ["outer0", "inner0", "outer0+inner0", "outer0+POST", "outer0+lat1500", "inner0+ctxv"]
+    jobs = []
+    shapes = [(1, ["500", "200"]), (1, ["e", "404"]), (2, ["503", "e", "302"]), (2, ["500", "500", "500"]),
+              (3, ["e", "e", "e", "e"]), (1, ["E200", "500"]), (0, ["500"]), (2, ["200"])]
+    extra = 40 if run.thorough() else 6
+    for prof in profs:
+        for n, sc in shapes:
+            jobs.append((n, [pad(sc, n)], prof))
+        for _ in range(extra):
+            n = run.rng.choice([1, 2, 3, 5])
+            j = run.rng.randint(1, n + 1)
+            sc = [run.rng.choice(FAILING) for _ in range(j)] + [run.rng.choice(["200", "404", "302", "500", "e"])]
+            jobs.append((n, [pad(sc, n)], prof))
+    return jobs
+
+
 def coq_outcome(i, tok):
     if "r" in tok:              # a Retry-After header is not part of the model's response
         tok = tok[:tok.index("r")]
@@ -102,14 +131,16 @@ def parse_obs(f, line):
 
 
 def run_jobs(probe, jobs, delay_us, par):
-    """jobs: [(n, [script, ...])]: the scripts of one job are consecutive requests through one middleware
-    instance; returns [[obs, ...]]"""
-    inp = "".join("%d %d %d %s\n" % (i, n, delay_us, "|".join(",".join(sc) for sc in scs)) for i, (n, scs) in enumerate(jobs))
+    """jobs: [(n, [script, ...])] or [(n, [script, ...], profile)]: the scripts of one job are consecutive requests
+    through one middleware instance; returns [[obs, ...]]"""
+    jobs = [(j[0], j[1], (j[2] if len(j) > 2 else "-")) for j in jobs]
+    inp = "".join("%d %d %d %s %s\n" % (i, n, delay_us, "|".join(",".join(sc) for sc in scs) or "-", prof)
+                  for i, (n, scs, prof) in enumerate(jobs))
     rc, out, err = lib.sh([str(probe), str(par)], input=inp, timeout=3000)
     if rc != 0:
         raise lib.CheckBroken("rtprobe failed: " + err[-2000:])
     res = []
-    for line, (n, scs) in zip(out.splitlines(), jobs):
+    for line, (n, scs, _prof) in zip(out.splitlines(), jobs):
         rest = line.split(None, 1)[1] if " " in line else ""
         if rest.startswith("PANIC"):
             res.append([parse_obs(["PANIC"], line) for _ in scs])
@@ -150,6 +181,11 @@ def coq_mismatches(run, cases, obs, tag):
     return res
 
 
+def scale_profile(prof, k):
+    """the slow re-run multiplies d by k: latencies are scaled with it"""
+    return "+".join(("lat%d" % (int(t[3:]) * k)) if t.startswith("lat") else t for t in prof.split("+"))
+
+
 def main(run):
     proof_ok = run.prove("Properties/C20.v", ["Corr/RetryCorr.v"])
     probe = run.build_helper("rtprobe")
@@ -164,6 +200,13 @@ def main(run):
             job_of[len(cases)] = (g, k)
             cases.append((n, sc))
             obs.append(o)
+    pjobs = gen_profiles(run)
+    pobs = run_jobs(probe, pjobs, 2000, 16)
+    prof_of = {}
+    for (n, scs, prof), os_ in zip(pjobs, pobs):
+        prof_of[len(cases)] = prof
+        cases.append((n, scs[0]))
+        obs.append(os_[0])
     mism = coq_mismatches(run, cases, obs, "c20cases")
     # timing-based sleep counting can be disturbed by scheduling stalls: EVERY mismatching case is re-run
     # alone, slowly, and kept only if it persists (none is dropped unexamined); when there are more
@@ -178,7 +221,8 @@ def main(run):
             if not pending:
                 break
             sub = [cases[i] for i in pending]
-            jobs2 = [groups[job_of[i][0]] if i in job_of else (cases[i][0], [cases[i][1]]) for i in pending]
+            jobs2 = [groups[job_of[i][0]] if i in job_of else (cases[i][0], [cases[i][1]], scale_profile(prof_of.get(i, "-"), 10))
+                     for i in pending]
             o2 = [o[job_of[i][1]] if i in job_of else o[0] for i, o in zip(pending, run_jobs(probe, jobs2, 20000, 8))]
             m2 = coq_mismatches(run, sub, o2, "c20re_%d" % attempt)
             last = {pending[j]: (v, o2[j]) for j, v in m2}
@@ -189,9 +233,9 @@ def main(run):
         replay = {"kind": "property-fails-on-implementation" if v == 2 else "correspondence-broken",
                   "theorem": "C20_stops_at_first_acceptable / C20_exhausted_returns_last",
                   "correspondence": "L1:C20:rtprobe vs Model/Retry.v",
-                  "n": n, "script": sc, "observed": o,
+                  "n": n, "script": sc, "observed": o, "profile": prof_of.get(idx, "-"),
                   "earlier_requests_through_the_same_middleware": (groups[job_of[idx][0]][1][:job_of[idx][1]] if idx in job_of else []),
-                  "how": "go run harness/go/cmd/rtprobe <<< '0 %d 20000 %s'" % (n, ",".join(sc))}
+                  "how": "go run harness/go/cmd/rtprobe <<< '0 %d 20000 %s %s'" % (n, ",".join(sc), scale_profile(prof_of.get(idx, "-"), 10))}
         run.violation(replay, no_input=(v != 2))
     if not proof_ok and not confirmed:
         run.proof_failure_violation()
@@ -217,10 +261,11 @@ def main(run):
                  "(%d cases, scripts shorter than n+1 padded with transport errors), plus %d random scripts "
                  "with boundary statuses (499/500/501, responses accompanied by errors, context/timeout transport "
                  "errors, responses with Retry-After, n up to 12), n<0, and %d groups of 2-4 consecutive requests through "
-                 "ONE middleware instance; "
+                 "ONE middleware instance, and %d runs under request/transport profiles (7 methods x Idempotency-Key / body / "
+                 "context with value, transport latency 0.25 d .. 1.25 d, RetryMiddleware(0, d) stacked outside / inside); "
                  "non-trivial = distinct (n, script) on which the implementation made at least two calls"
-                 % (6 if run.thorough() else 3, exhaustive_part, len(cases) - exhaustive_part - sum(len(g[1]) for g in groups),
-                    len(groups))),
+                 % (6 if run.thorough() else 3, exhaustive_part, len(cases) - exhaustive_part - sum(len(g[1]) for g in groups) - len(pjobs),
+                    len(groups), len(pjobs))),
         "exhaustive": bool(run.thorough()),
         "traces_validated_against_impl": len(cases),
         "calls_distribution": {str(k): v for k, v in sorted(dist.items())},
@@ -248,7 +293,7 @@ def replay(run, path):
     probe = run.build_helper("rtprobe")
     cases = [(r["n"], r["script"])]
     pre = r.get("earlier_requests_through_the_same_middleware") or []
-    obs = [run_jobs(probe, [(r["n"], pre + [r["script"]])], 20000, 1)[0][-1]]
+    obs = [run_jobs(probe, [(r["n"], pre + [r["script"]], scale_profile(r.get("profile") or "-", 10))], 20000, 1)[0][-1]]
     m = coq_mismatches(run, cases, obs, "c20replay")
     print("observed:", obs[0], "verdict:", m)
     if m:
